@@ -159,9 +159,10 @@ Section BWREC.
     intros Hk HT. unfold bw_xiz.
     assert (G : forall l z, fold_left (fun z i => fold_left (fun z j => z (+) bw_xi O Tr smap al be e k i j) st z) l z =
                             z (+) sum (map (fun i => sum (map (fun j => bw_xi O Tr smap al be e k i j) st)) l)).
-    { induction l as [|i l IH]; intros z; cbn [fold_left map esum fold_right].
-      - ring.
-      - rewrite IH. rewrite (fold_left_esum O CS). ring. }
+    { assert (Hc : forall a l, sum (a :: l) = a (+) sum l) by reflexivity.
+      induction l as [|i l IH]; intros z; cbn [fold_left map].
+      - change (sum []) with zero. ring.
+      - rewrite IH, Hc. rewrite (fold_left_esum O CS). rewrite (add_assoc O CS). reflexivity. }
     rewrite G. rewrite (add_0_l O CS).
     rewrite <- (xi_total O CS m Pi Tr Tf smap e n k Hk).
     apply (esum_ext O). intros i Hi. apply (esum_ext O). intros j Hj. apply in_seq in Hi, Hj.
